@@ -338,7 +338,9 @@ class GeneInfo:
         gene_info.intron_property_map = None
 
         # additional info for canonical splice site detection
-        gene_info.all_read_region_start = gene_info.start
+        # 1-based; a read cluster beginning at the first base of a contig has a (0-based) start of 0,
+        # start - 1 would then be counted from the end of the chromosome
+        gene_info.all_read_region_start = max(1, gene_info.start)
         gene_info.all_read_region_end = gene_info.end
         gene_info.canonical_sites = {}
         gene_info.gene_regions = {}
@@ -683,7 +685,9 @@ class GeneInfo:
         return self.reference_region[left_pos:right_pos+1]
 
     def set_reference_sequence(self, start, end, chr_record):
-        self.all_read_region_start = start
+        # 1-based; a read cluster beginning at the first base of a contig has a (0-based) start of 0,
+        # start - 1 would then be counted from the end of the chromosome and the region would be empty
+        self.all_read_region_start = max(1, start)
         self.all_read_region_end = end
         self.reference_region = \
             str(chr_record[self.all_read_region_start - 1:self.all_read_region_end])
